@@ -31,6 +31,12 @@ def gen_child(rng, style):
     for key in ("cmw", "cst", "rmh", "rst"):
         if rng.random() < (0.3 if style != "plain" else 0.15):
             a[key] = rng.choice([0, 1, 2, 20, 30])
+    # the kind of the child does not matter to the flow rule: spacers and nested layouts occupy a cell / a position like widgets do
+    r = rng.random()
+    if r < 0.2:
+        a["_cls"] = "QSpacerItem"
+    elif r < 0.3:
+        a["_cls"] = "QHBoxLayout"
     return a
 
 
@@ -75,7 +81,7 @@ def to_qml(lay):
                 lines.append("    %s: %d" % (key, lay[key]))
     for a in lay["kids"]:
         body = "; ".join("QLayout.%s: %d" % (q, a[k]) for k, q in FIELDS if k in a)
-        lines.append("    QLabel { %s }" % body)
+        lines.append("    %s { %s }" % (a.get("_cls", "QLabel"), body))
     lines += ["  }", "}"]
     return "\n".join(lines)
 
